@@ -577,7 +577,9 @@ fn oracles<S: MdkStorageProvider>(run: &mut Run, w: &mut World<S>, seq: &mut Vec
     if in_scope && active.iter().any(|&c| states[c] != target) {
         let detail: Vec<String> = (0..n).map(|c| format!("m{c}:st={} ep={}", states[c], w.mls_epoch(c))).collect();
         run.oracle_fail("C01", class, format!("[{backend}] after every event was re-offered until nothing changed, members are not all at the MIP-03-selected state {target} (chain {:?}): {}", chain, detail.join(" ")), seq.join(" || "));
-        if !truth.restarted.is_empty() {
+        // (a run with restarts that fails to converge for a reason that has nothing to do with the restart - another known C01
+        //  class - is reported under C01 only)
+        if !truth.restarted.is_empty() && (truth.late_competitor_after_restart || class.is_empty()) {
             run.oracle_fail("C11", if truth.late_competitor_after_restart { "better-commit-not-adopted-after-restart" } else { class }, format!("[{backend}] a run with restarts of {:?} did not converge to the MIP-03-selected state {target}: {}", truth.restarted, detail.join(" ")), seq.join(" || "));
         }
     }
